@@ -132,9 +132,11 @@ EXIT_PROGRAMS = [
 ]
 # merges with different stack pointers, frame pointers, stores through an sp of unknown offset, sub-word neighbours
 STACK_PROGRAMS = [
-    "main:\n    addi sp, sp, -16\n    sw s0, 0(sp)\n    mv s1, sp\n    beqz a0, join\n    addi sp, sp, -16\njoin:\n    sw a1, 0(sp)\n    addi sp, s1, 0\n    lw s0, 0(sp)\n    addi sp, sp, 16\n    li a7, 10\n    ecall\n",
-    "main:\n    addi sp, sp, -16\n    sw s0, 0(sp)\n    mv s1, sp\n    bnez a0, deeper\n    j join\ndeeper:\n    addi sp, sp, -16\njoin:\n    sw a1, 16(sp)\n    mv sp, s1\n    lw s0, 0(sp)\n    addi sp, sp, 16\n    li a7, 10\n    ecall\n",
-    "main:\n    addi sp, sp, -16\n    sw s0, 8(sp)\n    li t0, 255\n    sb t0, 7(sp)\n    sh t0, 4(sp)\n    lw s0, 8(sp)\n    addi sp, sp, 16\n    li a7, 10\n    ecall\n",
+    # inside a function (saved registers have a known entry value there)
+    "main:\n    li s0, 1234\n    li a0, 0\n    li a1, 5\n    call f\n    li a7, 10\n    ecall\nf:\n    addi sp, sp, -16\n    sw s0, 0(sp)\n    sw s1, 4(sp)\n    addi s1, sp, 0\n    beqz a0, skip\n    addi sp, sp, -16\nskip:\n    sw a1, 0(sp)\n    addi sp, s1, 0\n    lw s0, 0(sp)\n    lw s1, 4(sp)\n    addi sp, sp, 16\n    ret\n",
+    "main:\n    li a0, 1\n    li a1, 5\n    call f\n    li a7, 10\n    ecall\nf:\n    addi sp, sp, -16\n    sw s0, 0(sp)\n    sw s1, 4(sp)\n    addi s1, sp, 0\n    bnez a0, deeper\n    j join\ndeeper:\n    addi sp, sp, -16\njoin:\n    sw a1, 16(sp)\n    mv sp, s1\n    lw s0, 0(sp)\n    lw s1, 4(sp)\n    addi sp, sp, 16\n    ret\n",
+    "main:\n    li a0, 3\n    call f\n    li a7, 10\n    ecall\nf:\n    addi sp, sp, -16\n    sw s0, 8(sp)\n    li t0, 255\n    sb t0, 7(sp)\n    sh t0, 4(sp)\n    sb t0, 11(sp)\n    lw s0, 8(sp)\n    addi sp, sp, 16\n    ret\n",
     "main:\n    addi sp, sp, -16\n    sw zero, 0(sp)\n    lw t0, 0(sp)\n    li t0, 7\n    addi t1, t0, 1\n    mv a0, t1\n    addi sp, sp, 16\n    li a7, 10\n    ecall\n",
-    "main:\n    addi sp, sp, -16\n    sw s0, 8(sp)\n    sb t0, 8(sp)\n    lw s0, 8(sp)\n    addi sp, sp, 16\n    li a7, 10\n    ecall\n",
+    "main:\n    li a0, 3\n    call f\n    li a7, 10\n    ecall\nf:\n    addi sp, sp, -16\n    sw s0, 8(sp)\n    sb a0, 8(sp)\n    lw s0, 8(sp)\n    addi sp, sp, 16\n    ret\n",
+    "main:\n    li a0, 3\n    call f\n    li a7, 10\n    ecall\nf:\n    addi sp, sp, -16\n    sw ra, 12(sp)\n    sw s0, 8(sp)\n    mv s0, a0\n    sw a0, -4(sp)\n    call g\n    lw t0, -4(sp)\n    add a0, s0, t0\n    lw s0, 8(sp)\n    lw ra, 12(sp)\n    addi sp, sp, 16\n    ret\ng:\n    li t1, 77\n    sw t1, -4(sp)\n    li a0, 1\n    ret\n",
 ]
